@@ -8,7 +8,7 @@ use crate::generators::progen::{GenCfg, gen_program};
 use crate::model::interp::End;
 use serde_json::{Value, json};
 
-fn cfg_for(own_id: &str, tier: Tier) -> GenCfg {
+pub fn cfg_for(own_id: &str, tier: Tier) -> GenCfg {
   // the three behavioural properties share one compiler, hence one set of excluded shapes
   let excluded = |_: &str, flag: &str| excluded("C01", flag) || excluded("C03", flag) || excluded("C04", flag);
   let id = "";
